@@ -123,6 +123,31 @@ func runC10(c *Check) {
 			c.Decide("C10-R2", "AddBatch ⟂ no-refusal-after-the-durable-write", fn, posOf(g, isPut), "after the datastore Put succeeded every return is reached through the in-memory append",
 				"AddBatch can refuse a submission (return before the in-memory append) after the batch was written to the log: the refused batch leaves a trace — after a restart it is reloaded and handed out although it was never acknowledged, and a retried submission is delivered twice",
 				g, g.MustFollow(nodeSet(putOK), qStore, g.AnyExit()))
+			// the bytes handed to the datastore belong to this call: a buffer kept in the queue and
+			// reused for the next entry is overwritten under every datastore that keeps the slice it
+			// was given — earlier log entries then hold a later batch's bytes
+			for _, pn := range g.Select(isPut) {
+				v := ArgTerm(pn, 2)
+				shared := ""
+				if v != nil {
+					v.Walk(func(t *Term) bool {
+						if t.Op == "field" && len(t.Args) > 0 && t.Args[0].String() == add.Params[0].Name() && t.V != nil {
+							if ts := t.V.Type().String(); strings.Contains(ts, "[]byte") || strings.Contains(ts, "[]uint8") {
+								shared = t.String()
+							}
+						}
+						if t.Op == "global" {
+							shared = t.String()
+						}
+						return true
+					})
+				}
+				if shared == "" {
+					c.OK("C10-R1", "AddBatch ⟂ Put-value-owned-by-the-call", fn, p.InstrPos(pn.In), "the stored bytes are built in this call", true)
+				} else {
+					c.Bad("C10-R1", "AddBatch ⟂ Put-value-owned-by-the-call", fn, p.InstrPos(pn.In), "the bytes handed to the datastore share storage that outlives the call ("+shared+"): the next entry is encoded into the same array, and a datastore that keeps the slice it was given then holds the later batch's bytes under the earlier key — after a restart pending batches come back with other contents or not at all", nil)
+				}
+			}
 			// the value put is the encoding of this batch
 			for _, pn := range g.Select(isPut) {
 				v := ArgTerm(pn, 2)
